@@ -26,6 +26,7 @@ Record tcase := {
   t_preLast : Z; t_preDepth : Z; t_preCount : Z;
   t_batch : Z; t_log : bool; t_rerun : bool; t_maxRetries : Z; t_retryDelay : Z;
   t_killAt : Z; t_adds : list Z; t_crons : Z; t_timer : bool;
+  t_full : bool;         (* trigger with jobType fullsync *)
   t_burst : Z;           (* > 0: that many externally triggered runs while re-runs are pending; o_runs = [final state] *)
   (* observed *)
   o_outcome : Z;         (* 0 = the driver ran the case *)
@@ -81,7 +82,7 @@ Definition cfg_of (c : tcase) : jcfg :=
 Definition retries0 (c : tcase) : Z := if t_rerun c then eff_retries (t_maxRetries c) else 0.
 
 Definition predict_job (v : eh_variant) (c : tcase) : list (runrec Z) :=
-  chain (inner_of c) v (cfg_of c) 60 (Z.to_nat (t_n c)) (map Z.to_nat (t_adds c)) (Z.to_nat (t_crons c))
+  chain (inner_of c) v (cfg_of c) (t_full c) 60 (Z.to_nat (t_n c)) (map Z.to_nat (t_adds c)) (Z.to_nat (t_crons c))
         (j_init (retries0 c)).
 
 Definition to_orun (m : runrec Z) : orun :=
@@ -105,7 +106,7 @@ Definition agree_job (v : eh_variant) (c : tcase) : bool :=
 (** burst: all externally triggered runs first, then the queued re-runs; compared: number of executions,
     everything the sink and the handler saw, and the state after the last execution *)
 Definition predict_burst (v : eh_variant) (c : tcase) : list (runrec Z) :=
-  burst (inner_of c) v (cfg_of c) 60 (Z.to_nat (t_n c)) (Z.to_nat (t_burst c)) 0 (j_init (retries0 c)).
+  burst (inner_of c) v (cfg_of c) (t_full c) 60 (Z.to_nat (t_n c)) (Z.to_nat (t_burst c)) 0 (j_init (retries0 c)).
 
 Definition agree_burst (v : eh_variant) (c : tcase) : bool :=
   let rs := predict_burst v c in
@@ -160,6 +161,10 @@ Definition spec_sink (c : tcase) : bool :=
 Definition strict (c : tcase) : bool :=
   t_log c && (match t_failcalls c with [] => true | _ => false end) && (t_killAt c <? 0).
 
+Definition kill_noticed (c : tcase) : bool :=
+  (t_log c && (Z.to_nat (t_maxItems c) =? 0)%nat)
+  || (match t_bad c, t_failcalls c with [], [] => true | _, _ => false end).
+
 Definition spec_run (c : tcase) (tok n : nat) (o : orun) : bool :=
   let rest := zseq (Z.of_nat tok) (n - tok) in
   let k := Z.to_nat (t_maxItems c) in
@@ -172,22 +177,28 @@ Definition spec_run (c : tcase) (tok n : nat) (o : orun) : bool :=
         forallb (is_bad c) (reported log)
         && (if limit_hit k (length bads)
             then zlist_eqb (reported log) (firstn k bads) && ends_with_rep log
-                 && (0 <=? or_err o) && (or_tok o <=? Z.of_nat tok + Z.of_nat (length (flat log)) - 1)
+                 && (0 <=? or_err o)
+                 && (t_full c || (or_tok o <=? Z.of_nat tok + Z.of_nat (length (flat log)) - 1))
             else zlist_eqb (flat log) rest && Z.eqb (or_tok o) (Z.of_nat n)
                  && (match bads with [] => Z.eqb (or_err o) (-1) | _ => 0 <=? or_err o end))
       else true)
   (* a re-run is only scheduled after a failure that is not a kill *)
   && (if or_pending o then (t_rerun c) && negb (Z.eqb (or_err o) (-1)) && negb (Z.eqb (or_err o) (-3)) else true)
-  (* with a log handler and no limit the wrapped sink never fails a page, so a kill issued during the run is
-     noticed at the next page: the run is recorded as interrupted and schedules no re-run *)
-  && (if or_killed o && t_log c && (Z.to_nat (t_maxItems c) =? 0)%nat
-      then Z.eqb (or_err o) (-3) && negb (or_pending o) else true).
+  (* when no page can end the run with a sink error (log handler without limit: the wrapped sink never fails a page;
+     or a sink that rejects nothing) a kill issued during the run is noticed at the next page: the run is recorded
+     as interrupted and schedules no re-run *)
+  && (if or_killed o && kill_noticed c
+      then Z.eqb (or_err o) (-3) && negb (or_pending o) else true)
+  (* log handler, any sink (permanent or transient), no kill: the recorded outcome is ok iff nothing was reported
+     to the handler in THIS run *)
+  && (if t_log c && (t_killAt c <? 0)
+      then Bool.eqb (Z.eqb (or_err o) (-1)) (match reported log with [] => true | _ => false end) else true).
 
 Fixpoint spec_runs (c : tcase) (tok n : nat) (adds : list nat) (rs : list orun) : bool :=
   match rs with
   | [] => true
   | o :: rs' =>
-    spec_run c tok n o
+    spec_run c (if t_full c then 0%nat else tok) n o
     && spec_runs c (Z.to_nat (or_tok o)) (match adds with a :: _ => n + a | [] => n end)%nat (tl adds) rs'
   end.
 
